@@ -35,7 +35,7 @@ def R(what):
 
 PROPS = {
     "C01": {"level": "exploration", "trigger": ["c01.mutations"],
-        "batches": [sim("benign", 150, 3000), sim("faulty", 150, 4000), sim("lifecycle", 100, 2000), sim("multiterm", 100, 2000), sim("priorace", 100, 2000), sim("c06", 144, 2880), sim("leftover", 60, 600), sim("yieldstop", 190, 570), sim("connection", 200, 3000), sim("holdrace", 350, 3500), sim("twocause", 126, 126), sim("outage", 24, 240), sim("slowdemote", 126, 252), sim("doublestop", 18, 180), sim("chaintakeover", 12, 120)],
+        "batches": [sim("benign", 150, 3000), sim("faulty", 150, 4000), sim("lifecycle", 100, 2000), sim("multiterm", 100, 2000), sim("priorace", 100, 2000), sim("c06", 144, 2880), sim("leftover", 60, 600), sim("yieldstop", 190, 570), sim("connection", 200, 3000), sim("holdrace", 350, 3500), sim("twocause", 126, 126), sim("outage", 24, 240), sim("slowdemote", 126, 252), sim("doublestop", 18, 180), sim("chaintakeover", 24, 240)],
         "min": {"quick": {"c01.refreshes": 200, "c01.takeovers": 20, "c01.shutdown_deletes": 20, "c01.expiries": 20}},
         "rule": R("oracle over the complete caller-tagged mutation log of the reference store: every successful Create/Update/Delete must fit creation / refresh / legitimate takeover / owner's shutdown delete"), "assumptions": SIM_ASSUME},
     "C02": {"level": "exploration", "trigger": ["c02.flag_up"],
@@ -71,7 +71,7 @@ PROPS = {
         "min": {"quick": {"c09.stop_ok": 400, "c09.final_census": 500}},
         "rule": R("stoppoints enumerates (template cell: 20) x phase (issued-not-applied, applied-not-answered) x stop variant (17) x release delay (3) = 2040 cases (thorough: all); oracle: after the return of a successful stop no leadership claim, promotion, store-operation issue or transition; duration bounds; record gone with DeleteKey; no library goroutine left at the end"), "assumptions": SIM_ASSUME},
     "C10": {"level": "exploration", "trigger": ["c10.takeovers", "c10.refused", "c10.prompt_obligations"],
-        "batches": [sim("priority", 405, 1620), sim("priorace", 150, 3000), sim("multiterm", 60, 1000), sim("priosucc", 256, 1536), sim("holdrace", 350, 3500), sim("chaintakeover", 12, 120)],
+        "batches": [sim("priority", 405, 1620), sim("priorace", 150, 3000), sim("multiterm", 60, 1000), sim("priosucc", 256, 1536), sim("holdrace", 350, 3500), sim("chaintakeover", 24, 240)],
         "min": {"quick": {"c10.takeovers": 100, "c10.prompt_obligations": 50}},
         "rule": R("priority class enumerates all assignments of priority {1,2,3} x takeover flag x start order for 2 instances (108) and 3 instances (1512) (thorough: all, exhaustive); priorace adds takeover racing the incumbent's heartbeat; oracle: safety over every replacement of a live record, promptness 3H and final owner/stability in the fault-free class"), "assumptions": SIM_ASSUME},
     "C11": {"level": "fault_enumeration", "trigger": ["c11.notifications"],
